@@ -290,3 +290,15 @@ Example C06_loop_rule_nonvacuous :
   /\ loop_overlap_side_ok C06_safe_before 9%nat 21%nat = true.
 Proof. repeat split; vm_compute; reflexivity. Qed.
 Print Assumptions C06_loop_rule_nonvacuous.
+
+(* ---- block_overlap_scoped, arbitrary programs: under the same side condition the rewritten program uses no value
+   before it is available (wf_scope preserved, any nesting) --------------------------------------------------------------- *)
+From Snax Require Import Proofs.C06BlockScopeProofs.
+
+Theorem C06_block_overlap_scoped :
+  forall p o p',
+  block_overlap p o = Some p' ->
+  block_overlap_side_ok p o = true ->
+  wf_scope p = true -> wf_scope p' = true.
+Proof. exact block_overlap_scoped. Qed.
+Print Assumptions C06_block_overlap_scoped.
